@@ -1,6 +1,7 @@
 package serialization
 
 import (
+	"bytes"
 	"encoding/json"
 	"fmt"
 	"io"
@@ -106,6 +107,9 @@ func (j *jsonStreamer) write(e px.Value) {
 		v, err = json.Marshal(e.String())
 	case px.Float:
 		v, err = json.Marshal(e.Float())
+		if err == nil && bytes.IndexAny(v, `.eE`) < 0 {
+			v = append(v, '.', '0')
+		}
 	case px.Integer:
 		v, err = json.Marshal(e.Int())
 	case px.Boolean:
